@@ -818,6 +818,33 @@ def nontrivial(case, impl):
     return told >= 2 and rel >= 1
 
 
+def benign_share(cases, impl):
+    """Hypothesis of C02_head_unique evaluated literally by the model driver (mode "benign"): the implementation's
+    history is followed with the extracted Head and at every step `step Head st o = step Repaired st o` is decided by
+    structural equality.  Reports how many generated histories are benign (the HEAD theorems apply to them)."""
+    import os, subprocess, tempfile
+    here = os.path.dirname(os.path.dirname(os.path.abspath(__file__)))
+    exe = os.path.join(here, "build", "bin", "C02_run")
+    with tempfile.TemporaryDirectory(prefix="c02_benign_") as td:
+        cf, inf = os.path.join(td, "cases.txt"), os.path.join(td, "impl.txt")
+        open(cf, "w").write("\n".join(cases) + "\n")
+        open(inf, "w").write("\n".join(impl) + "\n")
+        p = subprocess.run([exe, cf, inf, "benign"], stdout=subprocess.PIPE, stderr=subprocess.PIPE, text=True)
+    lines = [l for l in p.stdout.split("\n") if l.startswith("benign=")]
+    if p.returncode != 0 or len(lines) != len(cases):
+        return {"benign_error": (p.stderr or "line count")[-300:]}
+    ben = [l.startswith("benign=1") for l in lines]
+    a = [b for c, b in zip(cases, ben) if not c.startswith("B ")]
+    b = [b for c, b in zip(cases, ben) if c.startswith("B ")]
+    safe = ["safe=1" in l for l in lines]
+    bad = sum(1 for x, y in zip(safe, ben) if x and not y)   # must be 0: C02_head_safe_is_benign
+    return {"head_safe_histories": sum(safe), "head_safe_share": round(sum(safe) / max(1, len(safe)), 3),
+            "head_safe_but_not_benign": bad,
+            "head_benign_histories": sum(ben), "head_benign_share": round(sum(ben) / max(1, len(ben)), 3),
+            "head_benign_stageA": "%d/%d" % (sum(a), len(a)), "head_benign_stageB": "%d/%d" % (sum(b), len(b)),
+            "head_benign_steps_evaluated": sum(int(l.split("steps=")[1]) for l in lines)}
+
+
 def distribution(cases, impl):
     d = {}
     d["stageB_cases"] = sum(1 for c in cases if c.startswith("B "))
@@ -839,5 +866,6 @@ def distribution(cases, impl):
                 k += ":fallback" if "told=%d" % FALLBACK in s else (":none" if "told=nil" in s else ":addr")
             d[k] = d.get(k, 0) + 1
     d["cases"] = len(cases)
+    d.update(benign_share(cases, impl))
     d["monitor_violations"] = sum(1 for c, o in zip(cases, impl) if not c.startswith("B ") and monitor(c, o))
     return d
